@@ -151,6 +151,8 @@ def one_document(ctx, schema, holder, dump, sdl, enum_kind, label, text, variabl
         site = raise_site(e)
         ctx.stat(stream + ":validate-raises:" + type(e).__name__)
         ctx.nontrivial((sdl, text))
+        _sample(ctx, stream, {"stream": stream, "label": label, "document": text[:400], "variables": variables,
+                              "validate": "RAISES %s in %s" % (type(e).__name__, site)})
         ctx.fail("validate-raises:%s:%s" % (type(e).__name__, site),
                  "validate_ast raises %s (in %s) instead of returning its list of errors" % (type(e).__name__, site),
                  dict(base, small=shrink_raise(schema, text, type(e), site)))
@@ -158,11 +160,13 @@ def one_document(ctx, schema, holder, dump, sdl, enum_kind, label, text, variabl
     if v.errors:
         ctx.stat(stream + ":rejected")
         ctx.nontrivial((sdl, text))
+        _sample(ctx, stream, {"stream": stream, "label": label, "document": text[:400], "variables": variables,
+                              "validate": "rejected: %d error(s), first: %s" % (len(v.errors), str(v.errors[0])[:120])})
         return
     ctx.stat(stream + ":accepted")
     if label:
         ctx.stat("accepted-adversarial:" + label)
-    for k in range(2):
+    for k in range(6 if (label or "").startswith("same-key") else 2):
         c = K.Case()
         c.sdl, c.enum_kind, c.text, c.variables, c.opname = sdl, enum_kind, text, variables, opname
         c.seed, c.mode, c.features = rng.randint(0, 10 ** 6), 0, set()
@@ -193,8 +197,22 @@ def one_document(ctx, schema, holder, dump, sdl, enum_kind, label, text, variabl
                 return
             if c.impl["data"]:
                 ctx.nontrivial((sdl, text, c.seed))
+        if k == 0:
+            _sample(ctx, stream, {"stream": stream, "label": label, "document": text[:400], "variables": variables,
+                                  "validate": "accepted", "seed": c.seed, "execution": json.dumps(c.impl)[:300]})
         if lean_batch is not None:
             lean_batch.append((dump, c, label))
+
+
+_SAMPLED = {}
+
+
+def _sample(ctx, stream, obj, per_stream=2):
+    """a few written-out cases per stream and verdict"""
+    key = (id(ctx), stream, obj["validate"].split(":")[0].split(" ")[0])
+    if _SAMPLED.get(key, 0) < per_stream:
+        _SAMPLED[key] = _SAMPLED.get(key, 0) + 1
+        ctx.sample(obj, cap=24)
 
 
 def shrink_raise(schema, text, cls, site):
@@ -280,9 +298,9 @@ def run(ctx):
 
 
 FIXED_SDL = ("type Query { a(l: [Int], x: String, o: In, i: Int): Int, b: Ob, u: U, n: Node, s: String! }\n"
-             "type Ob implements Node { id: ID, a(l: [Int]): Int, b: Ob }\n"
-             "type Other implements Node { id: ID, c: String }\n"
-             "interface Node { id: ID }\ninput In { a: Int }\nunion U = Ob | Other\n")
+             "type Ob implements Node { id: ID, t(x: Int): String, a(l: [Int]): Int, b: Ob }\n"
+             "type Other implements Node { id: ID, t(x: Int): String, c: String }\n"
+             "interface Node { id: ID, t(x: Int): String }\ninput In { a: Int }\nunion U = Ob | Other\n")
 
 FIXED = [
     ("V1-inline-unknown-type", "{ ... on Unknown { a } }", {}),
@@ -305,6 +323,15 @@ FIXED = [
     ("meta-on-non-root", "{ b { __schema { types { name } } } }", {}),
     ("same-key-object-then-abstract", "{ n { ... on Ob { k: a } ... on Node { k: id } } }", {}),
     ("same-key-abstract-then-object", "{ n { ... on Node { k: id } ... on Ob { k: a } } }", {}),
+    ("same-key-object-then-abstract-args", "{ n { ... on Ob { k: t(x: 1) } ... on Node { k: t(x: 2) } } }", {}),
+    ("same-key-abstract-then-object-args", "{ n { ... on Node { k: t(x: 2) } ... on Ob { k: t(x: 1) } } }", {}),
+    ("same-key-object-then-abstract-args-union", "{ u { ... on Ob { k: t(x: 1) } ... on Node { k: t } } }", {}),
+    ("same-key-object-then-abstract-nested", "{ n { ... on Ob { ...FO } ...FN } } fragment FO on Ob { k: id } fragment FN on Node { k: t }", {}),
+    ("same-key-abstract-then-object-nested", "{ n { ...FN ... on Ob { ...FO } } } fragment FO on Ob { k: id } fragment FN on Node { k: t }", {}),
+    ("same-key-object-then-object-exclusive", "{ n { ... on Ob { k: a } ... on Other { k: c } } }", {}),
+    ("spread-disabled-then-enabled", "{ a ...F @skip(if: true) ...F } fragment F on Query { s }", {}),
+    ("spread-disabled-then-enabled-vars", "query($x: Boolean!, $y: Boolean!) { ...F @include(if: $x) a ...F @include(if: $y) } fragment F on Query { s }", {"x": False, "y": True}),
+    ("spread-disabled-then-enabled-nested", "{ ... { ...F @skip(if: true) } b { id } ...G } fragment G on Query { ...F } fragment F on Query { s }", {}),
     ("same-key-same-field-both-orders", "{ n { ... on Node { k: id } ... on Ob { k: id } } u { ... on Ob { k: id } ... on Node { k: id } } }", {}),
 ]
 
@@ -334,6 +361,11 @@ def flush_lean(ctx, batch):
                      "validate_ast accepted a document outside the declarative ValidDoc predicate the theorems assume",
                      c.replay_data({"why": a.get("validdoc_why"), "label": label}), kind="correspondence")
         ctx.stat("validdoc:%s" % a.get("validdoc"))
+        ctx.stat("ranked-certificate:%s" % a.get("ranked"))
+        if a.get("ranked") is False:
+            ctx.fail("corr:accepted-but-not-ranked", "validate_ast accepted a document without a fragment-rank certificate "
+                     "(the totality theorem `responds_certified` does not apply: fragment cycle?)",
+                     c.replay_data({"label": label}), kind="correspondence")
         ctx.stat("key-consistent:%s" % a.get("key_consistent"))
         if "internal" in model:
             ctx.fail("corr:model-internal-on-validated:%s" % model["internal"],
